@@ -43,9 +43,14 @@ def plan(tier, seed):
         parts = 1 if L <= 4 else (4 if L == 5 else 16 if L == 6 else 64)
         for p in range(parts):
             items.append(dict(layer="merge", L=L, part=p, parts=parts))
+    for off in (1e6, -3e8):
+        for L in (2, 3, 4) if tier == "quick" else (2, 3, 4, 5):
+            items.append(dict(layer="merge", L=L, part=0, parts=1, offset=off))
     for kind in ("positive", "complex", "mixed"):
-        for oset in ("Z", "composite", "system"):
+        for oset in ("Z", "composite", "system", "offset"):
             for ns in range(1, 7):
+                if oset == "offset" and (kind != "positive" or ns in (2, 5)):
+                    continue
                 if tier == "quick" and kind == "complex" and (oset != "system" or ns in (4, 5)):
                     continue
                 items.append(dict(layer="driver", kind=kind, oset=oset, ns=ns))
@@ -67,7 +72,7 @@ def feq(a, b, tol=1e-12):
         return False
 
 
-def run_merge(acc, L, part, parts):
+def run_merge(acc, L, part, parts, offset=0.0):
     Lb = lib()
     import qucumber.observables.utils as U
 
@@ -86,7 +91,9 @@ def run_merge(acc, L, part, parts):
         return memo[c]
 
     flagged = set()
-    for idx, xs in enumerate(itertools.product(VAL, repeat=L)):
+    vals = [offset + x for x in VAL]
+    vtol = 1e-12 if offset == 0 else 1e-5  # chunk variances from torch.var_mean lose ~eps*|mean|/spread themselves
+    for idx, xs in enumerate(itertools.product(vals, repeat=L)):
         if idx % parts != part:
             continue
         want = onepass(list(xs))
@@ -103,7 +110,7 @@ def run_merge(acc, L, part, parts):
             acc.ev(1, nontrivial=len(chunks) >= 2)
             single = any(len(c) == 1 for c in chunks)
             q = "single-element-chunk" if single else "chunks>=2-elements"
-            case = dict(layer="merge", data=list(xs), chunks=[list(c) for c in chunks])
+            case = dict(layer="merge", data=list(xs), chunks=[list(c) for c in chunks], offset=offset)
             a = (0.0, 0.0, 0)
             try:
                 for c in chunks:
@@ -116,8 +123,8 @@ def run_merge(acc, L, part, parts):
                     flagged.add(sig)
                     acc.viol(sig, case, observed=repr(e), expected=want)
                 continue
-            if not (feq(float(a[0]), want[0]) and feq(float(a[1]), want[1]) and a[2] == want[2]):
-                sig = f"stats:merge:value:{q}"
+            if not (feq(float(a[0]), want[0]) and feq(float(a[1]), want[1], vtol) and a[2] == want[2]):
+                sig = f"stats:merge:value:{q}" + ("" if offset == 0 else ":large-offset")
                 if sig not in flagged:
                     flagged.add(sig)
                     acc.viol(sig, case, observed=list(a), expected=list(want))
@@ -133,10 +140,12 @@ def make_obs(oset):
         return O.SigmaZ(), None
     if oset == "composite":
         return O.SigmaX() - 2 * O.SigmaZ(), None
+    if oset == "offset":
+        return O.SigmaZ() + 1e8, None
     return None, O.System(O.SigmaZ(), O.SigmaX(), O.NeighbourInteraction(c=1))
 
 
-def run_driver_case(acc, kind, oset, ns, nc, bi, stp, init, ow, flagged, reuse=None):
+def run_driver_case(acc, kind, oset, ns, nc, bi, stp, init, ow, flagged, reuse=None, dtype=None):
     L = lib()
     if reuse is None:
         st, arch, params = F.fresh_state(kind, 2)
@@ -153,11 +162,12 @@ def run_driver_case(acc, kind, oset, ns, nc, bi, stp, init, ow, flagged, reuse=N
         return r
 
     st.sample = wrapped
-    user = None if init is None else torch.tensor([[float((r + c) % 2), float((r >> 1) & 1)] for r in range(init) for c in [r]], dtype=torch.double).reshape(init, 2)
+    udt = {None: torch.double, "f32": torch.float32, "i64": torch.int64}[dtype]
+    user = None if init is None else torch.tensor([[float((r + c) % 2), float((r >> 1) & 1)] for r in range(init) for c in [r]], dtype=torch.double).reshape(init, 2).to(udt)
     user0 = None if user is None else user.clone()
     chains = init if init is not None else (min(nc, ns) if nc != 0 else ns)
     q = "single-chain" if chains == 1 else "multi-chain"
-    case = dict(layer="driver", kind=kind, oset=oset, ns=ns, nc=nc, burn_in=bi, steps=stp, init=init, overwrite=ow, reused_objects=reuse is not None)
+    case = dict(layer="driver", kind=kind, oset=oset, ns=ns, nc=nc, burn_in=bi, steps=stp, init=init, overwrite=ow, reused_objects=reuse is not None, user_dtype=dtype)
     torch.manual_seed(ns * 1000 + nc * 100 + bi * 10 + stp)
     target = system if system is not None else ob
     h0 = [p.clone() for net in st.networks for p in getattr(st, net).parameters()]
@@ -193,10 +203,10 @@ def run_driver_case(acc, kind, oset, ns, nc, bi, stp, init, ow, flagged, reuse=N
             flag(f"stats:driver:chains-not-continued:{q}", None, None)
             return
     if user is not None:
-        if calls[0]["inp"] is None or not torch.equal(calls[0]["inp"], user0):
+        if calls[0]["inp"] is None or not torch.equal(calls[0]["inp"].to(torch.double), user0.to(torch.double)):
             flag(f"stats:driver:first-draw-does-not-start-from-user-chains:{q}")
             return
-        if ow and not torch.equal(user, calls[-1]["out"]):
+        if ow and dtype is None and not torch.equal(user, calls[-1]["out"]):
             flag(f"stats:driver:overwrite-did-not-update-user-tensor:{q}", user, calls[-1]["out"])
         if not ow and not torch.equal(user, user0):
             flag(f"stats:driver:user-tensor-modified-without-overwrite:{q}", user, user0)
@@ -211,8 +221,9 @@ def run_driver_case(acc, kind, oset, ns, nc, bi, stp, init, ow, flagged, reuse=N
         m, v, n = onepass(vals)
         r = res[name] if name is not None else res
         alone = None
-        ok = (r["num_samples"] == n == chains * draws and n >= ns and feq(float(r["mean"]), m) and feq(float(r["variance"]), v)
-              and (feq(float(r["std_error"]), math.sqrt(v / n)) if n > 1 else True))
+        vt = 1e-12 if oset != "offset" else 1e-5
+        ok = (r["num_samples"] == n == chains * draws and n >= ns and feq(float(r["mean"]), m) and feq(float(r["variance"]), v, vt)
+              and (feq(float(r["std_error"]), math.sqrt(v / n), vt) if n > 1 else True))
         if not ok:
             flag(f"stats:driver:reported-numbers-differ-from-one-pass:{'system' if system is not None else 'single'}:{q}",
                  {k_: r[k_] for k_ in ("mean", "variance", "std_error", "num_samples")}, dict(mean=m, variance=v, num_samples=n))
@@ -232,7 +243,7 @@ def run_driver_case(acc, kind, oset, ns, nc, bi, stp, init, ow, flagged, reuse=N
 def run_item(item):
     acc = Acc()
     if item["layer"] == "merge":
-        run_merge(acc, item["L"], item["part"], item["parts"])
+        run_merge(acc, item["L"], item["part"], item["parts"], item.get("offset", 0.0))
         acc.sample(dict(layer="merge", L=item["L"], example_data=VAL[:item["L"]], compositions="all"), cap=1)
         return acc
     flagged = set()
@@ -249,6 +260,10 @@ def run_item(item):
                                 continue  # num_chains is ignored when chains are given: two values suffice
                             acc.ev(1, nontrivial=True)
                             run_driver_case(acc, kind, oset, ns, nc, bi, stp, init, ow, flagged)
+                            if init is not None and bi == 1:
+                                for dt in ("f32", "i64"):
+                                    acc.ev(1, nontrivial=True)
+                                    run_driver_case(acc, kind, oset, ns, nc, bi, stp, init, ow, flagged, dtype=dt)
     acc.states = acc.evaluations
     acc.sample(dict(layer="driver", kind=kind, observable_set=oset, num_samples=ns, grid="num_chains 0..7 x burn_in x steps x initial_state x overwrite"), cap=1)
     return acc
@@ -266,11 +281,11 @@ def replay(case):
             for c in case["chunks"]:
                 v, m = torch.var_mean(torch.tensor(c, dtype=torch.double))
                 a = upd(a[0], a[1], a[2], m.item(), v.item(), len(c))
-            if not (feq(float(a[0]), want[0]) and feq(float(a[1]), want[1]) and a[2] == want[2]):
+            if not (feq(float(a[0]), want[0]) and feq(float(a[1]), want[1], 1e-12 if not case.get("offset") else 1e-5) and a[2] == want[2]):
                 acc.viol("stats:merge:value", case, observed=list(a), expected=list(want))
         except Exception as e:  # noqa: BLE001
             acc.viol(f"stats:merge:raised:{type(e).__name__}", case, observed=repr(e), expected=list(want))
         return acc
     acc.ev(1)
-    run_driver_case(acc, case["kind"], case["oset"], case["ns"], case["nc"], case["burn_in"], case["steps"], case["init"], case["overwrite"], set())
+    run_driver_case(acc, case["kind"], case["oset"], case["ns"], case["nc"], case["burn_in"], case["steps"], case["init"], case["overwrite"], set(), dtype=case.get("user_dtype"))
     return acc
